@@ -187,12 +187,29 @@ def gen(seed, i):
     net.params["sigma_act"] = str(rng.choice(["aposteriori", "apriori"]))
     net.params["conf_pr"] = float(rng.choice([0.95, 0.5, 0.999, 0.9, 0.6827])) if rng.uniform() < 0.6 else \
         float(np.round(rng.uniform(0.01, 0.995), 3))
+    if i % 5 == 2:
+        # excluded observations in the middle of clusters that mix standard deviations (a blundered direction
+        # is followed by distances, a blundered distance by zenith angles / angles): the statistics of the
+        # remaining observations must still belong to them
+        cand = [(cl, k) for cl in net.clusters if cl.kind == "obs" and cl.cov is None
+                for k, o in enumerate(cl.obs) if o.kind in ("direction", "distance") and k < len(cl.obs) - 1]
+        for idx in rng.permutation(len(cand))[:3]:
+            cl, k = cand[int(idx)]
+            o = cl.obs[k]
+            if o.kind == "direction":
+                o.val = (o.val + 37.0) % 400.0
+            else:
+                o.val += 25.0
+        feats = feats + ["excluded-obs"]
     if i % 4 == 3:
         rng2 = np.random.default_rng([seed, i, 9090])
         net = netgen.gen_net(rng2, dim=2, datum="fixed", noise=True, features=())
-        net.params["sigma_act"] = str(rng.choice(["aposteriori", "apriori"]))
+        # dof 0,1,2,3 in turn, mostly with the a posteriori deviation (Student quantile with that dof)
+        net.params["sigma_act"] = "apriori" if (i // 4) % 5 == 4 else "aposteriori"
         net.params["conf_pr"] = float(np.round(rng.uniform(0.01, 0.995), 3))
+        net.params["_extra"] = (i // 4) % 4
         _reduce_to_low_dof(rng, net)
+        net.params.pop("_extra", None)
         feats = ["low-dof"]
     return rng, net, feats
 
@@ -220,7 +237,7 @@ def _reduce_to_low_dof(rng, net):
         if q.xy == "constrained":
             q.xy = "free"
     # extra redundancy 0..3: a few distances from the second fixed point
-    extra = int(rng.integers(0, 4))
+    extra = int(net.params.get("_extra", rng.integers(0, 4)))
     cl = netgen.Cluster("obs", fixed[1])
     for pid in list(seen)[:extra]:
         if pid != fixed[1]:
